@@ -1,6 +1,6 @@
 use super::{
   type_::{
-    EnumVariantDefinitionSignature, FunctionType, GlobalSignature, InterfaceSignature,
+    EnumVariantDefinitionSignature, FunctionType, GlobalSignature, ISourceType, InterfaceSignature,
     MemberSignature, ModuleSignature, NominalType, StructItemDefinitionSignature, Type,
     TypeDefinitionSignature, TypeParameterSignature,
   },
@@ -255,6 +255,12 @@ fn resolve_all_transitive_super_types_recursive(
     }
     for super_type in &interface_cx.super_types {
       let instantiated_super_type = type_system::subst_nominal_type(super_type, &subst_mapping);
+      // A super type that is already collected has been expanded together with all of its own super
+      // types. Walking it again for every path that reaches it makes the work (and the result)
+      // exponential in the depth of a diamond-shaped hierarchy.
+      if collector.types.iter().any(|t| t.is_the_same_type(&instantiated_super_type)) {
+        continue;
+      }
       resolve_all_transitive_super_types_recursive(
         global_cx,
         &instantiated_super_type,
